@@ -244,7 +244,7 @@ fn small_typed<V: Val>(t: &mut Tracer, rng: &mut Rng, cx: &Ctx, var: Var, kind: 
     let entry = if rng.chance(1, 2) { "new" } else { "with_values" };
     let via_builder = kind != Kind::Std || cx.prop == "C11" || rng.chance(3, 4);
     let nfb = if cx.prop == "C11" {
-        *rng.pick(&[1u32, 1, 2, 3, 5, 64])
+        *rng.pick(&[1u32, 1, 2, 3, 5, 64, 65, 255, 256, 1000])
     } else if via_builder {
         *rng.pick(&[1u32, 1, 2, 3, 16, 64])
     } else {
